@@ -126,7 +126,7 @@ def main():
     # undefined divisions in constant expressions must be diagnosed (exit 1 with a message), never crash the compiler
     divs = [(e, s) for e, s in undefined if s[3] in ('err-div-zero', 'err-overflow')][:60 if run.quick() else 400]
     divs += [(('B', 'div', ('L', 'i32', 1), ('L', 'i32', 0)), None), (('B', 'mod', ('L', 'u64', 5), ('L', 'u8', 0)), None),
-             (('B', 'div', ('L', 'i64', -2**63), ('L', 'i32', -1)), None)]
+             (('B', 'div', ('L', 'i64', -2**63), ('L', 'i32', -1)), None), (('B', 'mod', ('L', 'i64', -2**63), ('L', 'i32', -1)), None), (('B', 'mod', ('L', 'i64', -2**63), ('L', 'i64', -1)), None)]
     divs = [(e, s, i) for i, (e, s) in enumerate(divs)]
     def one_div(x):
         e, s, i = x
